@@ -219,6 +219,7 @@ class Embedded:
         self.tokens = tab["tokens"]                 # id -> name
         self.tok_id = {v: k for k, v in self.tokens.items()}
         self.states = tab["states"]
+        self.bad_reductions = {}
         self.start_state = tab["start_states"][start[0]]
         self.end_state = tab["end_states"][start[0]]
 
@@ -232,6 +233,7 @@ class Embedded:
         """Run the LALR table on a token-name sequence (table interpreter
         written here; the shipped parser code is not executed)."""
         stack = [self.start_state]
+        syms = []                # grammar symbols shifted / reduced so far
         seq = list(toks) + [END]
         i = 0
         steps = 0
@@ -248,14 +250,24 @@ class Embedded:
             kind, arg = act
             if kind == 0:            # shift
                 stack.append(arg)
+                syms.append(tok)
                 i += 1
                 if tok == END:
                     return st != self.end_state or True
             else:                    # reduce
                 rule = self.rule_by_id[arg["@"]]
                 n = len(rule.expansion)
+                # a reduction is only meaningful when the symbols on the
+                # stack are the rule's right-hand side: otherwise the table
+                # builds a different tree than the rules describe
+                if (syms[-n:] if n else []) != list(rule.expansion):
+                    self.bad_reductions.setdefault(
+                        (st, tok, arg["@"]),
+                        (tuple(syms[-n:] if n else ()), tuple(toks)))
                 if n:
                     del stack[-n:]
+                    del syms[-n:]
+                syms.append(rule.origin)
                 goto = self.states.get(stack[-1], {}).get(
                     self.tok_id.get(rule.origin))
                 if goto is None:
